@@ -176,14 +176,14 @@ def _payload_uses(body, opt_local, body_prog_bodies=None):
                 if node["k"] == "call" and "fn" in node:
                     c = Callee(node["fn"])
                     last = c.path.split("::")[-1]
-                    if last in ("ok_or_else", "ok_or", "branch", "cloned", "expect", "unwrap", "as_ref", "map"):
+                    if last in ("ok_or_else", "ok_or", "branch", "cloned", "expect", "unwrap", "as_ref", "map", "inspect_err", "map_err"):
                         if node["dest"][1] == [] and last != "map":
                             work.append(node["dest"][0])
                             continue
                     if c.decl_path == "std::ops::Try::branch":
                         work.append(node["dest"][0])
                         continue
-                    if last in ("map", "and_then", "map_or", "is_some_and", "filter") and "Option" in c.path and len(node.get("args", [])) >= 2:
+                    if last in ("map", "and_then", "map_or", "is_some_and", "filter") and ("Option" in c.path or "Result" in c.path) and len(node.get("args", [])) >= 2:
                         # `.map(|el| el.content_bbox)`: what the closure reads of its parameter
                         cid = R.closure_id_of_operand(body, node["args"][-1])
                         cb = body_prog_bodies.get(cid) if cid is not None else None
